@@ -22,6 +22,9 @@ claimed={
 "C14":("A","exploration","HTTP clients against the real chi router + jwtauth middleware + handlers (no sockets) while jobs run in the same simulator: routes are discovered by walking the router, credentials drawn from 13 classes over 3 transports with profiling on/off; exp/nbf claims sit at seeded distances from the fake now and the clock is advanced across them between requests. Every answer is judged against nbf <= now < exp; a rejected request must leave the runner's state digest and the stub untouched and reveal nothing. Honest scope: the route x credential table is enumeration reached by sampling (cells reached are listed in the evidence); the simulator contributes the clock and the live runner."),
 "C15":("A","exploration","Same simulator; list-then-schedule probes executed atomically by the driver in settled states; visibility, ordering and timestamp invariants on every step."),
 "C16":("A","exploration","Same simulator with seeded definition mutations; what the stub is asked to run is compared with the definition installed when the job was accepted; reload steps must not change any job."),
+"C17":("R","exploration","(a) The real reload loop of the binary (app.handleDefinitionChanges, watch mode, ticker on the fake clock) next to an editor that rewrites real YAML files: single-field edits chosen by reflection over PipelineDef/TaskDef, written atomically or torn with polls in between, and invalid edits; after each completed edit and more than one poll interval the installed definitions must equal what the files say; they must be valid at every step; invalid files must leave the installed definitions unchanged. (b) Equals on reflection-generated single-field differences and the load result of valid file sets are exercised by direct input generation; this part is not simulation and is counted separately."),
+"C18":("C","exploration","The real TaskRunner, PgidExecutor, interpreter and child processes inside the bubble, job/stage interleaving decided by the tape: each command reports the environment it sees (through built-ins and through an executed /bin/sh) and renders typed job variables; compared with the precedence task > pipeline > process and with the variables of its own job. Scenario-replayable only."),
+"C19":("C","exploration","Same engine: tasks write known payloads (empty .. 4 MiB, partial lines, multi-byte text around chunk sizes, interleaved streams) from several jobs and tasks at once through the real FileOutputStore; the log store and GET /job/logs must return exactly those bytes per job, task and stream. Scenario-replayable only."),
 }
 extra={}
 try:
@@ -44,6 +47,8 @@ hooks=[l.split()[0] for l in log if 'simulation hook' in l or l.split(' ',1)[1].
 fixes=[l.split()[0] for l in log if l.split(' ',1)[1].startswith('fix:')]
 engines=[{"name":"A","path":"sim/","serves_properties":[c for c in sorted(claimed) if claimed[c][0]=="A"],"kind_free_text":"whole-runner deterministic simulation: real PipelineRunner, taskctl scheduler, JsonDataStore, FileOutputStore, HTTP handler inside one testing/synctest bubble under a seeded cooperative scheduler; stub task runner; fault injection (task failures, store/log-store errors, id generation failure, stalls, clock jumps, crash-restart, reloads); minimising replay"}]
 engines.append({"name":"B","path":"sim/store_engine.go, cmd/verifctl/b2.go, cmd/storehelper","serves_properties":["C09"],"kind_free_text":"B1: in-bubble seeded interleaving of savers/loaders/crash points over the real JsonDataStore; B2: real helper process under strace fault injection (SIGKILL at every syscall, ENOSPC at every write)"})
+engines.append({"name":"R","path":"sim/reload_engine.go","serves_properties":["C17"],"kind_free_text":"real reload loop + real YAML files + fake clock; reflection-driven editor"})
+engines.append({"name":"C","path":"sim/real_engine.go","serves_properties":["C18","C19"],"kind_free_text":"engine A's scheduler around the real task runner and real child processes (in-bubble); scenario-replayable"})
 engines+=extra.get("_engines",[])
 man={"version":1,"setup_cmd":"./setup.sh",
  "hooks":{"guard":"verif","enable":"go1.26.8 test -tags verif (harness module /verif/go.mod replaces github.com/Flowpack/prunner with /repo)","baseline_off_cmd":"cd /repo && GOFLAGS=-mod=mod GOPROXY=off GOSUMDB=off go test -vet=off -count=1 ./...","source_commits":hooks,"add_only":True},
